@@ -5,6 +5,8 @@ CONSTANTS
   NonPos <- NonPosSet
   Sims = {"simtub", "simtubc", "simfft", "spde", "gibbs", "simpgs", "simbipgs"}
   BareUnseeded = FALSE
+  Styles = {"old", "new"}
+  MaxHistNew = 1
 INVARIANT Reproducible NonPosIgnored
 ACTION_CONSTRAINT Emit
 CHECK_DEADLOCK FALSE
